@@ -25,6 +25,7 @@ EXTRA = {"C05": dict(mode="fault", trace=["C05_FailedMergeKeeps"]),
          # properties about what the store reads / keeps / does to its files, judged on the runs with ONE failed call too
          "C01f": dict(mode="fault", trace=["C01_UnderFaults"]), "C02f": dict(mode="fault", trace=["C02_UnderFaults"]),
          "C12f": dict(mode="fault", trace=["C12_AfterCrash"]), "C13f": dict(mode="fault", trace=["C13_AfterFault"]),
+         "C13": dict(mode="crash", trace=["C13_AfterCrash"]), "C13p": dict(mode="power", trace=["C13_AfterCrash"]),
          "C14f": dict(mode="fault", trace=["C14_FsDiscipline"])}
 
 TRACE_TMPL = """SPECIFICATION Spec
@@ -348,7 +349,7 @@ def validate(v, prop, files, tag, report_as=None):
             m = re.search(r'\bwhy = "([^"]*)"', st)
             why = m.group(1) if m else r.violated
             m2 = re.search(r'\bwhy2 = "([^"]+)"', st)
-            if m2 and any(x.startswith("C12_") for x in P["trace"]):
+            if m2 and any(x in ("C12_AfterCrash", "C13_AfterCrash") for x in P["trace"]):
                 why = m2.group(1)      # (the second, independent verdict of the event is the one this judge looks at)
             hdr, evs = find_run(f, line)
             run_id = evs[0].get("run", "?") if evs else "?"
